@@ -42,6 +42,8 @@ def mkMap (l : List (Int × Option Int)) : List (Int × Int) :=
   (l.filterMap (fun e => e.2.map (fun v => (e.1, v)))).reverse
 
 def pinVerdict (cands : List Int) (t : Topology) (routines : Int) (impl : String) : String :=
+  -- the executor asks the same question several times; differing answers are reported as `unstable a | b`
+  if impl.startsWith "unstable" then s!"bad pin-unstable {impl}" else
   if Spec.Cpupick.hasDup cands then "ok" else    -- duplicate candidates: outside the property
   match parseIntsComma impl with
   | none => "bad pin-unparsable"
